@@ -53,9 +53,12 @@ def setp(root, path, val):
 def candidates(case):
     has_examples = bool(case.get("tps") or case.get("tns"))
     out = []
+    has_alts = bool(case.get("alts"))
     for path, node in walk(case):
         if not path:
             continue
+        if has_alts and path[0] in ("src", "alts"):
+            continue        # the sources of one case belong together
         key = path[-1]
         if isinstance(node, list) and key in LISTS:
             if key == "docs" and has_examples:
